@@ -4,20 +4,22 @@ use std::{
     io,
     pin::Pin,
     sync::{Arc, Mutex},
-    task::{Context, Poll, Waker, ready},
+    task::{Context, Poll, ready},
 };
 
 use bytes::{BufMut, Bytes};
 use qbase::{
     error::{Error, ErrorKind, QuicError},
     frame::{DatagramFrame, EncodeSize, GetFrameType},
+    util::WakerVec,
 };
 
 #[derive(Debug)]
 struct RawDatagarmReader {
     local_max_size: usize,
     rcvd_datagrams: VecDeque<Bytes>,
-    read_waker: Option<Waker>,
+    // `DatagramReader` is `Clone`: several tasks may wait in `poll_recv` at the same time
+    read_wakers: WakerVec<2>,
 }
 
 impl RawDatagarmReader {
@@ -25,7 +27,7 @@ impl RawDatagarmReader {
         Self {
             local_max_size,
             rcvd_datagrams: VecDeque::new(),
-            read_waker: None,
+            read_wakers: WakerVec::new(),
         }
     }
 }
@@ -85,9 +87,7 @@ impl DatagramIncoming {
         }
 
         reader.rcvd_datagrams.push_back(data);
-        if let Some(waker) = reader.read_waker.take() {
-            waker.wake();
-        }
+        reader.read_wakers.wake_all();
 
         Ok(())
     }
@@ -103,9 +103,7 @@ impl DatagramIncoming {
     pub fn on_conn_error(&self, error: &Error) {
         let guard = &mut self.0.lock().unwrap();
         if let Ok(reader) = guard.as_mut() {
-            if let Some(waker) = reader.read_waker.take() {
-                waker.wake();
-            }
+            reader.read_wakers.wake_all();
             **guard = Err(error.clone());
         }
     }
@@ -140,7 +138,7 @@ impl DatagramReader {
             Ok(reader) => match reader.rcvd_datagrams.pop_front() {
                 Some(bytes) => Poll::Ready(Ok(bytes)),
                 None => {
-                    reader.read_waker = Some(cx.waker().clone());
+                    reader.read_wakers.register(cx.waker());
                     Poll::Pending
                 }
             },
